@@ -1,8 +1,8 @@
 package rules
 
 import (
-	"go/ast"
 	"fmt"
+	"go/ast"
 	"go/types"
 	"math/big"
 	"os"
@@ -477,6 +477,40 @@ func (c *Ctx) c06WithTTL() {
 			return true
 		})
 	})
+	// who derives a TTL context: inside the library only the failover frontend does (UpdateTTL for a stale refresh, DefaultTTL for the
+	// failure cache), always as a fresh derived context (updateExisting = false). A backend / Trait function that calls WithTTL either
+	// rewrites the caller's cell (update = true: a later Write with that context takes the reported value as its TTL) or shadows the
+	// TTL the caller put into the context (the value's own TTL instead of the context's)
+	withTTLObj := c.Pkg.Types.Scope().Lookup("WithTTL")
+	fromFailover := c.onlyCalledFrom(func(name string) bool {
+		return strings.HasPrefix(name, "Failover.") || strings.HasPrefix(name, "FailoverOf.") || strings.HasPrefix(name, "NewFailover")
+	})
+	nCalls := 0
+	c.eachFuncDecl(func(fd *ast.FuncDecl, fn *types.Func) {
+		fname := strings.TrimPrefix(pw.FuncName(fn), "cache.")
+		if fname == "WithTTL" || c.isNewAPI(fn) || withTTLObj == nil {
+			return
+		}
+		ast.Inspect(fd.Body, func(x ast.Node) bool {
+			call, ok := x.(*ast.CallExpr)
+			if !ok {
+				return true
+			}
+			id, _ := ast.Unparen(call.Fun).(*ast.Ident)
+			if id == nil || info.Uses[id] != withTTLObj || len(call.Args) != 3 {
+				return true
+			}
+			nCalls++
+			if tv, ok := info.Types[call.Args[2]]; !ok || tv.Value == nil || tv.Value.String() != "false" {
+				r.Bad("R06.3", fname, "library-updates-existing-cell", c.Pos(call.Pos()), "the library calls WithTTL with updateExisting other than the constant false: the TTL cell of the caller's context is rewritten behind the caller's back", nil)
+			}
+			if !fromFailover(fn) {
+				r.Bad("R06.3", fname, "ttl-context-derived-outside-failover", c.Pos(call.Pos()), "WithTTL is called outside the failover frontend: a backend/Trait function that derives its own TTL context replaces the TTL the caller's context carries", nil)
+			}
+			return true
+		})
+	})
+	r.Count("withttl_library_calls", nCalls)
 	if !hasViolation(r.Obls, "R06.3", "WithTTL") {
 		r.OK("R06.3", "WithTTL", fmt.Sprintf("%d paths, %d (path, ordering) cases, 13 weak orderings of (*existing, ttl, 0)", len(paths), nCases))
 	}
